@@ -16,7 +16,8 @@ SeqRules == {"leja", "rleja", "rleja-shifted", "max-lebesgue", "min-lebesgue", "
 OddRules == {"leja-odd", "rleja-odd", "max-lebesgue-odd", "min-lebesgue-odd", "min-delta-odd"}
 NestedGlobalRules == SeqRules \cup OddRules \cup {"clenshaw-curtis", "clenshaw-curtis-zero", "fejer2", "gauss-patterson",
                       "rleja-double2", "rleja-double4", "rleja-shifted-even", "rleja-shifted-double", "fourier"}
-GaussRules == {"gauss-legendre", "gauss-chebyshev1", "gauss-chebyshev2", "gauss-gegenbauer", "gauss-jacobi", "gauss-laguerre", "gauss-hermite", "chebyshev"}
+\* "custom-tabulated": the driver supplies a custom rule file that holds the Gauss-Legendre tables
+GaussRules == {"gauss-legendre", "gauss-chebyshev1", "gauss-chebyshev2", "gauss-gegenbauer", "gauss-jacobi", "gauss-laguerre", "gauss-hermite", "chebyshev", "custom-tabulated"}
 GaussOddRules == {"gauss-legendre-odd", "gauss-chebyshev1-odd", "gauss-chebyshev2-odd", "gauss-gegenbauer-odd", "gauss-jacobi-odd", "gauss-laguerre-odd", "gauss-hermite-odd", "chebyshev-odd"}
 
 CCPoints(l) == IF l = 0 THEN 1 ELSE Pow2(l) + 1
